@@ -17,6 +17,9 @@
 (*            shift and comparison operator, several return widths: the      *)
 (*            operator x width grid of the translator (mixed widths are      *)
 (*            where its zero-extension rules live)                           *)
+(*   fixgrid  the same for fixed point: argument OP float literal (typed by  *)
+(*            the library with the first layout that holds it), arguments   *)
+(*            of two different layouts                                       *)
 (***************************************************************************)
 EXTENDS AstLib, FiniteSets, TLC, Json
 
@@ -81,9 +84,25 @@ OpGrid ==
   \cup {FunDef("f", Sig2(w[1], w[2]), <<Ret(Bin(op2, Bin(op, A, B), A))>>, TInt(12)) : w \in {v \in WPairs : v[1] + v[2] <= 8},
             op \in {"Add", "Sub", "BitXor"}, op2 \in {"Add", "Sub", "Mult"}}
 
+\* fixed point: every operator between an argument and a bare float literal (typed by the library with the FIRST
+\* layout that holds it, usually not the argument's), and between two arguments of nested layouts
+Layouts == {<<1, 2>>, <<2, 2>>, <<1, 3>>, <<2, 3>>}
+Floats == {CF(1, 2), CF(1, 4), CF(3, 4), CF(3, 2), CF(1, 1), CF(5, 2), CF(1, 8)}
+FSig1(l) == <<Arg("a", TFix(l[1], l[2]))>>
+FSig2(l, m) == <<Arg("a", TFix(l[1], l[2])), Arg("b", TFix(m[1], m[2]))>>
+FixGrid ==
+  UNION {{FunDef("f", FSig1(l), <<Ret(Bin(op, A, k))>>, TFix(l[1], l[2])) : op \in {"Add", "Sub"}, k \in Floats} : l \in Layouts}
+  \cup UNION {{FunDef("f", FSig1(l), <<Ret(Bin(op, k, A))>>, TFix(l[1], l[2])) : op \in {"Add", "Sub"}, k \in Floats} : l \in Layouts}
+  \cup UNION {{FunDef("f", FSig1(l), <<Ret(Cmp(op, A, k))>>, TBool) : op \in Cmps, k \in Floats} : l \in Layouts}
+  \cup UNION {{FunDef("f", FSig1(l), <<Ret(Cmp(op, k, A))>>, TBool) : op \in Cmps, k \in Floats} : l \in Layouts}
+  \cup UNION {{FunDef("f", FSig2(lp[1], lp[2]), <<Ret(Bin(op, A, B))>>, TFix(MaxW(lp[1][1], lp[2][1]), MaxW(lp[1][2], lp[2][2]))) : op \in {"Add", "Sub"}}
+              \cup {FunDef("f", FSig2(lp[1], lp[2]), <<Ret(Cmp(op, A, B))>>, TBool) : op \in Cmps} : lp \in Layouts \X Layouts}
+  \cup UNION {{FunDef("f", FSig1(l), <<Assign("u", A), Aug("u", "Add", k), Ret(IfE(Cmp("Gt", U, k2), U, A))>>, TFix(l[1], l[2])) : k \in Floats, k2 \in {CF(1, 2), CF(3, 2)}} : l \in Layouts}
+
 Pool == CASE Family = "loopif" -> LoopIf [] Family = "elif" -> Elif [] Family = "nested" -> Nested
           [] Family = "listidx" -> ListIdx [] Family = "swapuse" -> SwapUse [] Family = "ifaug" -> IfAug
           [] Family = "opgrid" -> OpGrid
+          [] Family = "fixgrid" -> FixGrid
 Init == p \in Pool
 Next == FALSE /\ p' = p
 Spec == Init /\ [][Next]_p
